@@ -534,6 +534,9 @@ int64_t cmi_pool_acquire_inner(struct cmb_resourcepool *rpp,
                     found = cmi_process_remove_holdable(caller, hrp);
                     cmb_assert_debug(found == true);
                 }
+
+                /* What we put back may be what the next in line waits for */
+                cmb_resourceguard_signal(&(rpp->guard));
             }
 
             cmb_assert_debug(rpp->in_use <= rpp->capacity);
